@@ -339,6 +339,22 @@ def c05(cfg, events):
         phase_all = [(e.method, e.sid) for e in cbs if e.method in fam]
         if got != exp or phase_all != exp:
             return "op%d %s() with state %d active delivered phase callbacks %s, expected exactly %s first" % (op, api.name, before, phase_all, exp)
+        # injected bases of the root head and of the active state: every layer gets every phase callback exactly once,
+        # and no layer of any other state gets one
+        want = {}
+        for s_ in ([255] if cfg.head else []) + ([before] if before != 255 else []):
+            row = cfg.n if s_ == 255 else s_
+            for j in range(cfg.inj[row]):
+                for m in fam:
+                    want[(m, s_, "I%d" % j)] = 1
+        seen = {}
+        for e in evs:
+            if e.kind == "cb" and e.layer != "S" and e.method in fam:
+                seen[(e.method, e.sid, e.layer)] = seen.get((e.method, e.sid, e.layer), 0) + 1
+        if seen != want:
+            bad = sorted(k_ for k_ in set(seen) | set(want) if seen.get(k_, 0) != want.get(k_, 0))
+            return "op%d %s() with state %d active: the injected bases received phase callbacks %s times instead of once each (method, state, layer: %s)" % (
+                op, api.name, before, [seen.get(k_, 0) for k_ in bad], bad)
     return None
 
 
@@ -352,8 +368,64 @@ def c06(cfg, events, case=None):
         for j, ch in enumerate(e.f["act"]):
             if (ch == "1") != (mact == j):
                 return "control.isActive(%d) is %s but the machine reports state %d active: %s" % (j, ch, mact, e.raw)
+    # in guards: the pending transition being evaluated and the transition accepted so far in this processing step
+    if cfg.all_defined(GUARDS + LIFE):
+        for (inst, op), evs in ops_of(events):
+            api = next((e for e in evs if e.kind == "api"), None)
+            if api is not None and api.name in ("construct", "enter") + PROCESSING and not any(e.kind == "rejected" for e in evs):
+                v = redirects_evaluated(cfg, op, api.name, evs, activation=api.name in ("construct", "enter"))
+                if v:
+                    return v
     # a request made through a control records the calling state as its origin
     return provenance(cfg, events, case) if case else None
+
+
+def c11(cfg, events, case=None):
+    """C02's outcome / history rule, plus the replay calls themselves: replayTransition(d) / replayEnter(d) run exactly
+    the lifecycle of a change to `d` (reenter alone when `d` is already active), end in `d`, consult no guard and leave
+    `d` in previousTransition(); replayTransition(INVALID) returns false and runs nothing"""
+    v = c02(cfg, events, case)
+    if v or not case or not cfg.history or not cfg.all_defined(LIFE):
+        return v
+    ops = case_ops(case)
+    last = {}
+    for (inst, op), evs in ops_of(events):
+        api = next((e for e in evs if e.kind == "api"), None)
+        if api is None or op < 0 or op >= len(ops):
+            continue
+        w = ops[op]
+        prev_api = last.get(inst)
+        last[inst] = api
+        if w[0] not in ("replayTransition", "replayFrom", "replayEnter", "replayEnterFrom") or any(e.kind == "rejected" for e in evs):
+            continue
+        if w[0] in ("replayTransition", "replayEnter"):
+            d = int(w[2])
+        else:
+            sp = last.get(int(w[2])) if int(w[2]) != inst else prev_api
+            if sp is None or sp.f.get("prev") in (None, "~"):
+                continue
+            d = tr_dest(sp.f["prev"])
+            d = (255 if w[0] == "replayFrom" else 0) if d is None else d
+        if prev_api is None:
+            continue
+        before, after = int(prev_api.f["act"]), int(api.f["act"])
+        life = life_of(evs)
+        g = next((e for e in evs if e.kind == "cb" and e.method in GUARDS), None)
+        if g is not None:
+            return "op%d %s(%d): a guard was consulted while replaying: %s" % (op, api.name, d, g.raw)
+        if w[0] in ("replayTransition", "replayFrom"):
+            if d == 255:
+                if life or after != before or api.f.get("ret") != "0":
+                    return "op%d replayTransition(INVALID) ran %s, active %d -> %d, returned %s; it must return false and change nothing" % (op, life, before, after, api.f.get("ret"))
+                continue
+            exp = [("reenter", before)] if d == before else [("exit", before), ("enter", d)]
+        else:
+            exp = [("enter", d)]
+        if life != exp or after != d:
+            return "op%d %s(%d) with state %d active ran %s and ended in state %d; replaying that transition means %s and state %d" % (op, api.name, d, before, life, after, exp, d)
+        if api.f.get("prev") not in (None, "~") and api.f["prev"] != "255>%d:-" % d:
+            return "op%d %s(%d): previousTransition() is %s afterwards, the replayed transition is 255>%d:-" % (op, api.name, d, api.f["prev"], d)
+    return None
 
 
 def c12(cfg, events):
@@ -614,12 +686,14 @@ def plan_walk(cfg, events, case, want):
     outst = {}             # inst -> {state: a success report is outstanding (True) / certainly not (False)}; absent = unknown
     fail_out, succ_out = {}, {}    # inst -> a failure / success report happened since the statuses were last wiped
     fail_ever = {}
+    fbit = {}              # inst -> {state: its failure bit is set (True) / certainly clear (False)}; absent = unknown
     appended = {}          # inst -> a task was appended since activation (None = unknown)
     head_pf = cfg.head and cfg.defined(255, "planFailed")
     head_ps = cfg.head and cfg.defined(255, "planSucceeded")
 
     def wipe_status(inst):
         outst[inst] = {k_: False for k_ in range(cfg.n)}
+        fbit[inst] = {k_: False for k_ in range(cfg.n)}
 
     def report(inst, target, ok):
         if ok:
@@ -629,6 +703,7 @@ def plan_walk(cfg, events, case, want):
         else:
             fail_out[inst] = True
             fail_ever[inst] = True
+            fbit.setdefault(inst, {})[target] = True
 
     for (inst, op), evs in ops_of(events):
         if op < 0:
@@ -648,6 +723,7 @@ def plan_walk(cfg, events, case, want):
                 src = int(w[2]) if len(w) > 2 else None
                 consumed[inst] = dict(consumed.get(src, {}))
                 outst[inst] = dict(outst.get(src, {}))
+                fbit[inst] = dict(fbit.get(src, {}))
                 for d_ in (fail_out, succ_out, fail_ever, appended):
                     d_[inst] = d_.get(src)
                 known[inst] = list(known[src]) if known.get(src) is not None else None
@@ -655,6 +731,7 @@ def plan_walk(cfg, events, case, want):
                 consumed[inst] = {}
                 if name in ("load", "destroy"):
                     outst[inst] = {}
+                    fbit[inst] = {}
                     appended[inst] = None
                     known[inst] = None
             elif name in ("succeed", "fail") and len(w) > 2:
@@ -717,6 +794,7 @@ def plan_walk(cfg, events, case, want):
         if cyc:
             before = known.get(inst)
             outst_before = dict(outst.get(inst, {}))      # outstanding successes as the plan step finds them
+            fbit_before = dict(fbit.get(inst, {}))
             # ---- the plan step
             if want == "C08":
                 for (o, d) in fires:
@@ -772,6 +850,10 @@ def plan_walk(cfg, events, case, want):
                             return "op%d: more than one plan outcome callback in one cycle: %s" % (op, e.raw)
                         if e.method == "planFailed" and fail_out.get(inst) is False:
                             return "op%d: planFailed() delivered but no failure was reported since the statuses were last cleared: %s" % (op, e.raw)
+                        if e.method == "planFailed" and a is not None and a != 255:
+                            failed_now = any(x.kind == "do" and x.text.split()[0] == "fail" for x in phase)
+                            if not failed_now and fbit_before.get(a) is False:
+                                return "op%d: planFailed() delivered, but nobody reported a failure in this cycle and the failure bit of the active state %d is clear (it was never set, or the state was exited / the plan was cleared since): %s" % (op, a, e.raw)
                         if e.method == "planSucceeded":
                             reported_now = any(x.kind == "do" and x.text.split()[0] == "succeed" for x in phase)
                             if a is not None and outst_before.get(a) is False and not reported_now:
@@ -789,6 +871,7 @@ def plan_walk(cfg, events, case, want):
                     # PlanT::clear() after the callback returns wipes every status bit (reports made inside the
                     # callback included); unknown until then
                     outst[inst] = {}
+                    fbit[inst] = {}
                 if e.kind in ("cb", "api"):
                     v = see(e)
                     if v:
@@ -800,6 +883,7 @@ def plan_walk(cfg, events, case, want):
             act[inst] = int(api.f["act"])
             if before_act is not None and before_act != 255 and before_act != act[inst]:
                 outst.setdefault(inst, {})[before_act] = False      # S_::deepExit clears the exited state's statuses
+                fbit.setdefault(inst, {})[before_act] = False
             if api.name in ("exit",) and not rejected:
                 appended[inst] = False
                 wipe_status(inst)
@@ -1160,7 +1244,7 @@ def metamorphic(prop, case, impl_lines, rerun):
     return None
 
 
-ORACLES = {"C01": c01, "C02": c02, "C03": c02, "C04": c04, "C05": c05, "C06": c06, "C11": c02, "C12": c12,
+ORACLES = {"C01": c01, "C02": c02, "C03": c02, "C04": c04, "C05": c05, "C06": c06, "C11": c11, "C12": c12,
            "C14": c14, "C15": c15, "C07": c07, "C08": c08, "C09": c09, "C10": c10, "C16": c16, "C17": c17}
 NEEDS_CASE = ("C02", "C03", "C06", "C07", "C08", "C09", "C10", "C11", "C14", "C15", "C16", "C17")
 
